@@ -498,6 +498,10 @@ class Pools:
         if r < 0.7:
             a, b = rng.choice(self.scalars), rng.choice(self.scalars)
             c = rng.choice(self.scalars)
+            if self.friendly:
+                # oracle mode: values that are positive at positive points, so that numeric comparison stays on the
+                # principal branches where SymPy's automatic Abs/sqrt rewrites are identities
+                return rng.choice([a + b, a * b + 1, a**2, 2 * a + b / 3, self.f(a, b), a / (b + 2), (a + b) * c])
             # compound arguments: sum, difference, negated sum, quotient, product with a sum, function application
             return rng.choice([a + b, a * b + 1, a**2, 2 * a - b / 3, self.f(a, b), a - b, -(a + c), a / (b + 2), (a + b) * c, -a])
         return self.instance(rng, depth - 1, scalar_only=True)
@@ -533,7 +537,13 @@ class Pools:
             import sympy as sp
 
             return sp.Integer(rng.randint(0, 2))
-        return self.scalar(rng, depth)
+        v = self.scalar(rng, depth)
+        if n in {"angular_momentum", "l"} and getattr(v, "is_Number", False) and not v.is_Integer:
+            import sympy as sp
+
+            # a non-integer NUMERIC angular momentum makes BlattWeisskopfSquared.evaluate compute for minutes
+            return sp.Integer(rng.randint(0, 2))
+        return v
 
     def instance_of(self, entry: ClassEntry, rng, depth):
         args = [self.arg_for(f.name, rng, depth) for f in entry.sympy_fields]
@@ -758,8 +768,14 @@ def correspondence(chk: common.Check, rng, n_per_class: int, entries, helpers, c
                 real=_try(lambda: entry.cls(*vals, 7)), n_given=len(vals) + 1)
             attrs = tuple(m1.attr_of(getattr(r, f.name), ctx) for f in entry.attr_fields)
             if any(a == attrs for a, _ in entry.templates):
-                ev = _try(r.evaluate)
-                if isinstance(ev, Exception):
+                try:
+                    ev = with_cap(10.0, _try, r.evaluate)
+                except _Timeout:
+                    stats["evaluate_timeouts"] = stats.get("evaluate_timeouts", 0) + 1
+                    ev = None
+                if ev is None:
+                    pass
+                elif isinstance(ev, Exception):
                     stats["evaluate_raised_on_random_args"] += 1
                 else:
                     add(f"(unfold {s})", op="unfold", key=key, real=ev, expr=r)
